@@ -99,4 +99,17 @@ theorem flatFields_not_obj (pre : Key) (fs : List (Key × J)) :
     · exact flatFields_not_obj pre rest e he
 end
 
+/-! ### the one remaining slice of `pre_process_path` -/
+
+theorem sliceFrom_dotSlash (s : List Char) (h : startsWith ['.', '/'] s = true) :
+    ∃ rest, sliceFrom 2 s = some rest ∧ s = '.' :: '/' :: rest := by
+  match s, h with
+  | c1 :: c2 :: rest, h =>
+    simp only [startsWith, isPrefixOf, Bool.and_eq_true, beq_iff_eq, and_true] at h
+    obtain ⟨h1, h2⟩ := h
+    subst h1; subst h2
+    exact ⟨rest, by simp [sliceFrom, Char.utf8Size], rfl⟩
+  | [], h => simp [startsWith, isPrefixOf] at h
+  | [c], h => simp [startsWith, isPrefixOf] at h
+
 end Json
